@@ -206,7 +206,7 @@ fn avx2<A: Alphabet>() -> Pipeline<A, Avx2> {
 // --- generic -------------------------------------------------------------------------
 //@ C01 quick 800 generic score, DNA, C=4, R=2 (L in 5..=8), M=2, free wildcard column
 harness!(none, 34, c01_generic_dna_c4_r2_m2, rows_body::<Dna, U4, _, 2, 2, 0, 2, false, 0>(&generic()));
-//@ C01 thorough 10800 generic score, DNA, C=32, R=1 (L in 0..=32, incl. L<M), M=2
+//@ C01 quick 800 generic score, DNA, C=32, R=1 (L in 0..=32, incl. L<M), M=2
 harness!(none, 34, c01_generic_dna_c32_r1_m2, rows_body::<Dna, U32, _, 1, 2, 0, 1, true, 0>(&generic()));
 //@ C01 quick 800 generic score, protein, C=4, R=2, M=2
 harness!(none, 34, c01_generic_protein_c4_r2_m2, rows_body::<Protein, U4, _, 2, 2, 0, 2, true, 0>(&generic()));
@@ -216,23 +216,23 @@ harness!(none, 34, c01_generic_dna_c4_r3_m2_rows13, rows_body::<Dna, U4, _, 3, 2
 harness!(none, 34, c01_generic_dna_c4_r1_m3, rows_body::<Dna, U4, _, 1, 3, 0, 1, true, 0>(&generic()));
 //@ C01 quick 800 generic score, DNA, C=4, R=2, M=2 on a sequence configured for a wider motif (2 extra look-ahead rows)
 harness!(none, 34, c01_generic_dna_c4_r2_m2_extra2, rows_body::<Dna, U4, _, 2, 2, 0, 2, true, 2>(&generic()));
-//@ C01 thorough 3600 generic score, DNA, C=16, R=2, M=3
+//@ C01 thorough 4464 generic score, DNA, C=16, R=2, M=3
 harness!(none, 34, c01_generic_dna_c16_r2_m3, rows_body::<Dna, U16, _, 2, 3, 0, 2, true, 0>(&generic()));
-//@ C01 thorough 3600 generic score, DNA, C=4, R=3, M=4
+//@ C01 thorough 2369 generic score, DNA, C=4, R=3, M=4
 harness!(none, 34, c01_generic_dna_c4_r3_m4, rows_body::<Dna, U4, _, 3, 4, 0, 3, false, 0>(&generic()));
-//@ C01 thorough 3600 generic score, DNA, C=4, R=2, M=1
+//@ C01 quick 800 generic score, DNA, C=4, R=2, M=1
 harness!(none, 34, c01_generic_dna_c4_r2_m1, rows_body::<Dna, U4, _, 2, 1, 0, 2, true, 0>(&generic()));
 
 // --- SSE2 ----------------------------------------------------------------------------
-//@ C01 thorough 7200 SSE2 score, DNA, C=16, R=2 (L in 17..=32), M=2
+//@ C01 thorough 6823 SSE2 score, DNA, C=16, R=2 (L in 17..=32), M=2
 harness!(sse2, 34, c01_sse2_dna_c16_r2_m2, rows_body::<Dna, U16, _, 2, 2, 0, 2, true, 0>(&sse2()));
-//@ C01 thorough 10800 SSE2 score, DNA, C=32, R=1 (L in 0..=32), M=2, free wildcard column
+//@ C01 extended 10800 SSE2 score, DNA, C=32, R=1 (L in 0..=32), M=2, free wildcard column
 harness!(sse2, 34, c01_sse2_dna_c32_r1_m2, rows_body::<Dna, U32, _, 1, 2, 0, 1, false, 0>(&sse2()));
-//@ C01 thorough 10800 SSE2 score, protein, C=16, R=1, M=2
+//@ C01 extended 10800 SSE2 score, protein, C=16, R=1, M=2
 harness!(sse2, 34, c01_sse2_protein_c16_r1_m2, rows_body::<Protein, U16, _, 1, 2, 0, 1, true, 0>(&sse2()));
-//@ C01 thorough 5400 SSE2 score_rows_into rows 1..2, DNA, C=16, R=2, M=3
+//@ C01 extended 5400 SSE2 score_rows_into rows 1..2, DNA, C=16, R=2, M=3
 harness!(sse2, 34, c01_sse2_dna_c16_r2_m3_rows12, rows_body::<Dna, U16, _, 2, 3, 1, 2, true, 0>(&sse2()));
-//@ C01 thorough 5400 SSE2 score, DNA, C=32, R=2, M=2
+//@ C01 extended 5400 SSE2 score, DNA, C=32, R=2, M=2
 harness!(sse2, 34, c01_sse2_dna_c32_r2_m2, rows_body::<Dna, U32, _, 2, 2, 0, 2, true, 0>(&sse2()));
 
 // --- AVX2 ----------------------------------------------------------------------------
@@ -244,15 +244,15 @@ harness!(avx2, 34, c01_avx2_protein_r1_m2, rows_body::<Protein, U32, _, 1, 2, 0,
 harness!(avx2, 34, c01_avx2_dna_r2_m1_rows12, rows_body::<Dna, U32, _, 2, 1, 1, 2, false, 0>(&avx2()));
 //@ C01 quick 800 AVX2 permute score, DNA, R=1, M=1 on a sequence configured for a wider motif (2 extra look-ahead rows)
 harness!(avx2, 34, c01_avx2_dna_r1_m1_extra2, rows_body::<Dna, U32, _, 1, 1, 0, 1, true, 2>(&avx2()));
-//@ C01 thorough 10800 SSE2 score, DNA, C=16, R=1, M=2 on a sequence configured for a wider motif (1 extra look-ahead row)
+//@ C01 thorough 2565 SSE2 score, DNA, C=16, R=1, M=2 on a sequence configured for a wider motif (1 extra look-ahead row)
 harness!(sse2, 34, c01_sse2_dna_c16_r1_m2_extra1, rows_body::<Dna, U16, _, 1, 2, 0, 1, true, 1>(&sse2()));
-//@ C01 thorough 7200 AVX2 permute score, DNA, R=2 (L in 33..=64), M=2
+//@ C01 thorough 2880 AVX2 permute score, DNA, R=2 (L in 33..=64), M=2
 harness!(avx2, 34, c01_avx2_dna_r2_m2, rows_body::<Dna, U32, _, 2, 2, 0, 2, true, 0>(&avx2()));
-//@ C01 thorough 7200 AVX2 permute score, DNA, R=1, M=3 (look-ahead wider than R)
+//@ C01 thorough 5044 AVX2 permute score, DNA, R=1, M=3 (look-ahead wider than R)
 harness!(avx2, 34, c01_avx2_dna_r1_m3, rows_body::<Dna, U32, _, 1, 3, 0, 1, true, 0>(&avx2()));
-//@ C01 thorough 7200 AVX2 gather score, protein, R=2, M=2
+//@ C01 thorough 3641 AVX2 gather score, protein, R=2, M=2
 harness!(avx2, 34, c01_avx2_protein_r2_m2, rows_body::<Protein, U32, _, 2, 2, 0, 2, true, 0>(&avx2()));
-//@ C01 thorough 10800 AVX2 permute score, DNA, R=3 (L in 65..=96), M=3
+//@ C01 extended 10800 AVX2 permute score, DNA, R=3 (L in 65..=96), M=3
 harness!(avx2, 34, c01_avx2_dna_r3_m3, rows_body::<Dna, U32, _, 3, 3, 0, 3, true, 0>(&avx2()));
 
 //@ C01 quick 800 SSE2 score, DNA, C=16, R=1 (L in 0..=16), M=1
@@ -263,11 +263,11 @@ harness!(avx2, 34, c01_avx2_protein_r1_m1, rows_body::<Protein, U32, _, 1, 1, 0,
 // --- dispatcher arms ------------------------------------------------------------------
 //@ C01 quick 800 ScoringMatrix::score + score_position via dispatcher, AVX2 arm, DNA, R=1, M=2
 harness!(avx2, 34, c01_dispatch_avx2_dna_r1_m2, dispatch_body::<Dna, 1, 2, 1>(Dispatch::Avx2));
-//@ C01 thorough 10800 ScoringMatrix::score + score_position via dispatcher, SSE2 arm, DNA, R=1, M=2
+//@ C01 thorough 8310 ScoringMatrix::score + score_position via dispatcher, SSE2 arm, DNA, R=1, M=2
 harness!(avx2, 34, c01_dispatch_sse2_dna_r1_m2, dispatch_body::<Dna, 1, 2, 0>(Dispatch::Sse2));
-//@ C01 thorough 10800 ScoringMatrix::score + score_position via dispatcher, generic arm, DNA, R=1, M=2
+//@ C01 quick 800 ScoringMatrix::score + score_position via dispatcher, generic arm, DNA, R=1, M=2
 harness!(avx2, 34, c01_dispatch_generic_dna_r1_m2, dispatch_body::<Dna, 1, 2, 2>(Dispatch::Generic));
-//@ C01 thorough 5400 ScoringMatrix::score via dispatcher, AVX2 arm (gather), protein, R=1, M=2
+//@ C01 thorough 1800 ScoringMatrix::score via dispatcher, AVX2 arm (gather), protein, R=1, M=2
 harness!(avx2, 34, c01_dispatch_avx2_protein_r1_m2, dispatch_body::<Protein, 1, 2, 0>(Dispatch::Avx2));
 //@ C01 quick 800 ScoringMatrix::score + score_position via dispatcher, AVX2 arm, DNA, R=1, M=1
 harness!(avx2, 34, c01_dispatch_avx2_dna_r1_m1, dispatch_body::<Dna, 1, 1, 0>(Dispatch::Avx2));
